@@ -45,5 +45,6 @@ func apiSetup(base string, groups []string) (http.Handler, error) {
 
 func main() {
 	tokdrv.APISetup = apiSetup
+	tokdrv.SigNew = sigNew
 	tr.Main(tokdrv.RunAPI)
 }
